@@ -58,7 +58,7 @@ def gen_cases(tier, seed):
     rnd = random.Random(f"C17:{seed}")
     mult = 10 if tier == "quick" else 300
     cases = []
-    for kind, n in (("layout", 400), ("affine", 1200), ("gifti", 50), ("vtk", 250),
+    for kind, n in (("layout", 400), ("affine", 1200), ("gifti", 90), ("vtk", 250),
                     ("links", 40)):
         for _ in range(n * mult):
             cases.append({"kind": kind, "seed": rnd.randrange(2 ** 32)})
@@ -297,12 +297,17 @@ def run_gifti(case):
     try:
         n, m = rnd.choice([(3, 1), (8, 6), (40, 30)])
         V = (g.normal(size=(n, 3)) * 50).astype(np.float32)
-        T = np.array([g.choice(n, 3, replace=False) for _ in range(m)], dtype=np.int32)
+        # the topology array in the usual int32, or in another numeric type a GIFTI writer
+        # may choose (the indices are the same numbers)
+        tname, tcode = (("int32", "NIFTI_TYPE_INT32"), ("uint8", "NIFTI_TYPE_UINT8"),
+                        ("float32", "NIFTI_TYPE_FLOAT32"),
+                        ("int32", "NIFTI_TYPE_INT32"))[case["seed"] % 4]
+        obs["gifti_triangle_types"] = {tname: 1}
+        T = np.array([g.choice(n, 3, replace=False) for _ in range(m)], dtype=tname)
         img = gifti.GiftiImage()
         das = [gifti.GiftiDataArray(V, intent="NIFTI_INTENT_POINTSET",
                                     datatype="NIFTI_TYPE_FLOAT32"),
-               gifti.GiftiDataArray(T, intent="NIFTI_INTENT_TRIANGLE",
-                                    datatype="NIFTI_TYPE_INT32")]
+               gifti.GiftiDataArray(T, intent="NIFTI_INTENT_TRIANGLE", datatype=tcode)]
         if case["seed"] % 3 == 0:
             das.reverse()     # the format identifies the arrays by intent, not by position
             obs["gifti_triangles_before_points"] = 1
@@ -615,6 +620,7 @@ def gates(obs, tier):
         "integer_typed_vertex_arrays": obs.get("integer_typed_vertices", 0) > 100,
         "triangles_checked": obs.get("triangles_checked", 0) > 1000,
         "gifti_with_transform": obs.get("with_transform", 0) > 5,
+        "gifti_triangles_in_three_numeric_types": len(obs.get("gifti_triangle_types", {})) == 3,
         "link_files_checked": obs.get("link_files_checked", 0) > 50,
         "big_endian_mesh_arrays": obs.get("big_endian_arrays", 0) > 20,
         "segment_labels_beyond_2_53": obs.get("labels_beyond_2_53", 0) > 0,
